@@ -121,6 +121,7 @@ def main():
     else:
         missing.append('SERIALIZER_INDENT')
 
+    os.makedirs(os.path.dirname(out), exist_ok=True)
     with open(out + '.tmp', 'w', encoding='utf-8') as f:
         f.write('(* Gen/Extracted.v — GENERATED by tools/extract_consts.py from %s; do not edit. *)\n' % repo)
         f.write('From Coq Require Import List NArith.\nImport ListNotations.\n\n')
